@@ -54,6 +54,8 @@ func zzC16Ascii(name string, n int) string {
 }
 
 // zzC16Obj builds an object of the kind; tag makes the input names unique.
+// (The type obligations run without int_mode and use the tag "o": within one
+// engine process an input name must not be used with two different sorts.)
 func zzC16Obj(kind int, tag string) slip.Object {
 	switch {
 	case kind == 0:
@@ -811,6 +813,23 @@ func VerifC16Hash(ka int, kb int, o1 int, o2 int, o3 int, o4 int) {
 	count()
 	check(0)
 	check(1)
+	// maphash visits exactly the model's entries (as a set)
+	scope.Let(slip.Symbol("zz-c16-acc"), nil)
+	lam := slip.ReadString("(lambda (k v) (setq zz-c16-acc (cons v (cons k zz-c16-acc))))", scope).Eval(scope, nil)
+	r := zzC16Call(scope, "maphash", slip.List{lam, h})
+	vrt.Assert(r.class == 0, "maphash does not return")
+	acc, _ := scope.Get(slip.Symbol("zz-c16-acc")).(slip.List)
+	vrt.Assert(len(acc) == 2*len(m.ents), "maphash does not visit one entry per distinct key")
+	for i := range m.ents {
+		seen := false
+		for j := 0; j+1 < len(acc); j += 2 {
+			if zzC16Same(acc[j], m.ents[i].val) && zzC16Same(acc[j+1], m.ents[i].key) {
+				seen = true
+			}
+		}
+		vrt.Assert(seen, "maphash does not visit an entry of the model")
+	}
+	vrt.Reach("maphash")
 }
 
 // ---- (iv) types ----
@@ -850,7 +869,7 @@ func zzC16Subtypep(scope *slip.Scope, a, b string) int {
 // member of x's Hierarchy().
 func VerifC16TypeOf(k int) {
 	scope := slip.NewScope()
-	x := zzC16Obj(k, "x")
+	x := zzC16Obj(k, "o")
 	to := zzC16Call(scope, "type-of", slip.List{x})
 	ts, isSym := to.obj.(slip.Symbol)
 	vrt.Assert(to.class == 0 && isSym, "type-of does not return a symbol")
@@ -911,7 +930,7 @@ func VerifC16Subtypep(i int) {
 func VerifC16TypepSub(k int) {
 	scope := slip.NewScope()
 	names := zzC16Classes()
-	x := zzC16Obj(k, "x")
+	x := zzC16Obj(k, "o")
 	is := make([]bool, len(names))
 	for i, c := range names {
 		r := zzC16Typep(scope, x, slip.Symbol(c))
@@ -957,7 +976,7 @@ func VerifC16Coerce(k int, ti int) {
 		return
 	}
 	t := names[ti]
-	x := zzC16Obj(k, "x")
+	x := zzC16Obj(k, "o")
 	r := zzC16Call(scope, "coerce", slip.List{x, slip.Symbol(t)})
 	vrt.Reach("coerced")
 	vrt.Assert(r.class != 3, "coerce: Go run-time fault")
